@@ -6,6 +6,7 @@ pub mod engine;
 mod model;
 mod monitors;
 mod props;
+pub mod runloop;
 mod sim;
 
 /// Entry point of the engine binary.
